@@ -13,6 +13,20 @@ CLAIMED = {
         note="Trusts: the step-clock cost model (25x measured cost, confirmed at 200x before a HANG is reported), SimFS/SimProc fidelity (checked by selftest --fidelity against real subprocesses), the workload generator's reach.",
         ref="DESIGN.md section 5 C13",
     ),
+    "C06": dict(
+        engine="store-sim",
+        technique="deterministic simulation: seeded histories of tool writes, simulated-peer (RefTape) recordings with varied leaders/gaps/block sizes, restarts from durable bytes and append-rebuilds on one tape stream; after every op the real reader's listing is compared with a reference model file list",
+        text="Seeded search over histories of 1..8 ops on one tape (tool_add, tool_add_files, append-rebuild, peer_record, restart, file_util --list on SimFS); invariant after every op: tool listing == model (count, order, name, types, addresses, data). Sampled; thorough sweeps every data length 1..1024.",
+        note="Trusts RefTape (validated on golden vectors at start-up) and SimFS/SimProc. Known finding C06-empty-file: 0-byte files are withheld from generation while it stands.",
+        ref="DESIGN.md section 5 C06",
+    ),
+    "C14": dict(
+        engine="store-sim",
+        technique="deterministic simulation: same tape histories as C06 including the append path that re-emits peer-written (gap-flagged, multi-leader) recordings; in-run invariant = a strict checksum-verifying peer reader (RefTape, CLOAD-strict) accepts every tool-written stream and finds exactly the model's name-file and data blocks",
+        text="Seeded search over tape histories; invariant after every op on the part of the stream last written by the tool: strict framing 55 3C type len payload checksum 55, 15-byte name-file block equal to the model, data blocks <= 255 bytes concatenating to the data, EOF block, leaders present.",
+        note="Trusts RefTape as the judge of well-formedness. Apart from the re-emit path the bytes of one file do not depend on history; the evidence file says so.",
+        ref="DESIGN.md section 5 C14",
+    ),
 }
 
 NOT_APPLICABLE = {
